@@ -199,6 +199,25 @@ class Check(object):
         return '%s:%s:%s' % (f.read.split('[')[0] + ':' + (f.op[0] if f.op else '?'), cls, multi)
 
 
+def churn_history(r):
+    """Re-add / remove heavy: many tombstones pile up in front of and between the live entries."""
+    ntasks = r.choice([5, 12, 40, 60])
+    ops = []
+    for _ in range(r.randint(400, 2500)):
+        x = r.random()
+        t = r.randrange(ntasks)
+        if x < 0.68:
+            ops.append(['add', t, r.choice(PRIOS)])
+        elif x < 0.8:
+            ops.append(['remove', t])
+        elif x < 0.92:
+            ops.append(['pop'])
+        else:
+            ops.append(['peek'])
+    ops += [['pop_d']] * (ntasks + 2)
+    return {'kind': 'pq', 'size_factor': r.choice([1520, 2, 8]), 'ops': ops}
+
+
 def large_history(r, n):
     ops = []
     for i in range(n):
@@ -301,6 +320,18 @@ def run(ctx):
     n = {'quick': 1500, 'thorough': 75000}[ctx.tier]
     explore(ctx, Check(), n, 'pq')
     explore(ctx, BListCheck(), n, 'blist')
+    for j in range({'quick': 6, 'thorough': 150}[ctx.tier]):
+        h = churn_history(ctx.rng('churn', j))
+        ctx.stats.evaluations += 1
+        f = Check().run(h, ctx.stats)
+        ctx.stats.count('churn_histories')
+        if f is not None:
+            from checks.common.history import shrink
+            try:
+                h, f = shrink(Check(), h, f, max_tests=120)
+            except Exception:
+                pass
+            ctx.stats.violation(Check().signature(h, f) + ':churn', repr(f), {'history': h})
     # the really large queue, default tuning
     r = ctx.rng('large')
     size = r.randint(25000, 32000) if ctx.tier == 'quick' else r.randint(40000, 60000)
